@@ -50,9 +50,11 @@ Reset(s) ==
   /\ cpc' = "start" /\ carg' = 0 /\ cgot' = 0 /\ cclosed' = FALSE /\ cret' = NoRet /\ ccalls' = 0
   /\ notified' = FALSE /\ lateFalse' = 0 /\ started' = FALSE /\ order' = TRUE
 
+(* No lost wakeups: the popper has a notification on offer exactly when the model says so. *)
+NotifiedAgree(s) == ("nf" \in DOMAIN s) => (notified = ("C" \in {s.nf[i] : i \in 1 .. Len(s.nf)}))
 TraceNext ==
   /\ l <= Len(Rec)
-  /\ LET s == Rec[l] IN Reset(s) \/ (s.t = "P" /\ PStep(s)) \/ (s.t = "C" /\ CStep(s))
+  /\ LET s == Rec[l] IN Reset(s) \/ (s.t = "P" /\ NotifiedAgree(s) /\ PStep(s)) \/ (s.t = "C" /\ NotifiedAgree(s) /\ CStep(s))
   /\ l' = l + 1
 TraceSpec == TraceInit /\ [][TraceNext]_tvars
 TraceAccepted ==
